@@ -366,13 +366,8 @@ class AttributeCollection(MutableMapping[int, Attribute]):
 
         attributes = cls().parse(data, negotiated)
 
-        if Attribute.CODE.INTERNAL_TREAT_AS_WITHDRAW in attributes:
-            return attributes
-
-        if Attribute.CODE.AS_PATH in attributes and Attribute.CODE.AS4_PATH in attributes:
-            attributes.merge_attributes()
-
         if Attribute.CODE.AGGREGATOR in attributes and Attribute.CODE.AS4_AGGREGATOR in attributes:
+            # (done before the treat-as-withdraw return below: the attributes of such an UPDATE are reported too)
             # RFC 6793 4.2.3: AS4_AGGREGATOR holds the real aggregator when AGGREGATOR carries AS_TRANS and is
             # ignored otherwise; the two share the name 'aggregator' in every rendering
             aggregator = attributes[Attribute.CODE.AGGREGATOR]
@@ -381,6 +376,12 @@ class AttributeCollection(MutableMapping[int, Attribute]):
             if isinstance(aggregator, Aggregator) and isinstance(aggregator4, Aggregator) and aggregator.asn == AS_TRANS:
                 attributes.remove(Attribute.CODE.AGGREGATOR)
                 attributes.add(Aggregator.make_aggregator(aggregator4.asn, aggregator4.speaker))
+
+        if Attribute.CODE.INTERNAL_TREAT_AS_WITHDRAW in attributes:
+            return attributes
+
+        if Attribute.CODE.AS_PATH in attributes and Attribute.CODE.AS4_PATH in attributes:
+            attributes.merge_attributes()
 
         if Attribute.CODE.MP_REACH_NLRI not in attributes and Attribute.CODE.MP_UNREACH_NLRI not in attributes:
             cls.previous = key
